@@ -257,3 +257,88 @@ Proof. exact example_layout. Qed.
 Example C02_example_reads_as_the_document :
   match sem ex_doc with Some p => parse (items_text ex_items) = Some p | None => False end.
 Proof. exact example_reads_as_the_document. Qed.
+
+(* ---- tie of the hand-written scanners to the literals of the CURRENT source (Generated/YannyLits.v is regenerated
+   from yanny.py on every run by translate/c01.py; the scanners and their attribution: C01/Lits.v) ---- *)
+From PV Require Import Generated.YannyLits C01.Lits.
+
+Theorem C02_source_regexes_are_the_scanners : yanny_regexes = scanner_regexes.
+Proof. exact regexes_are_the_scanners. Qed.
+Print Assumptions C02_source_regexes_are_the_scanners.
+
+Theorem C02_source_tables_are_the_scanners :
+  yanny_dtmap_write = scanner_dtmap_write /\ yanny_dtmap_read = scanner_dtmap_read /\
+  yanny_int_types = scanner_int_types /\ yanny_float_types = scanner_float_types /\
+  yanny_protect_condition = scanner_protect_condition.
+Proof. exact tables_are_the_scanners. Qed.
+Print Assumptions C02_source_tables_are_the_scanners.
+
+(* ================================================================== round 3: typedef blocks in any layout, typedefs and
+   pairs anywhere *)
+From PV Require Import Yanny.StructFacts Yanny.TypedefLayout Yanny.Skeleton Yanny.StructLayout.
+
+(* LAYOUT INSIDE A STRUCT TYPEDEF BLOCK: any blank run (blanks, tabs, newlines) before the first declaration, between type
+   word and name and after every semicolon, with at least one newline between two declarations; comment / filler words
+   after a declaration and on lines of their own; every array / length suffix in brackets or angle brackets independently;
+   the trailing name in any letter case -- such a block is read as the declaration of the table (td_reads: the pre-passes
+   isolate it, the declaration scanner finds exactly the column names, the type lookup gives every column its type) *)
+Theorem C02_typedef_block_layout : forall es t ws ys lead fill0 name,
+  forallb enum_ok es = true -> table_ok es t = true -> cols_words es (t_cols t) ws -> clays_ok es (t_cols t) ys = true ->
+  lead <> [] -> forallb wsch lead = true -> forallb fpart_ok fill0 = true ->
+  name <> [] -> forallb is_word name = true -> upper name = upper (t_name t) ->
+  no_td name = true -> no_td (lbody lead fill0 (t_cols t) ws ys) = true ->
+  td_reads es t (lbody lead fill0 (t_cols t) ws ys) name.
+Proof. exact lbody_td_reads. Qed.
+Print Assumptions C02_typedef_block_layout.
+
+(* the writer's own typedef text is one such layout *)
+Theorem C02_canonical_typedef_reads : forall es tw,
+  forallb enum_ok es = true -> table_ok es (fst tw) = true -> cols_words es (t_cols (fst tw)) (snd tw) ->
+  td_reads es (fst tw) (fst (struct_td es tw)) (snd (struct_td es tw)).
+Proof. exact canonical_td_reads. Qed.
+Print Assumptions C02_canonical_typedef_reads.
+
+(* composition principle with free typedef blocks: ANY text of well-formed items whose struct typedefs are read as the
+   document's tables, whose enum typedefs are the document's and whose lines drive the line loop to the document's pairs
+   and rows is read as the document; only the typedef TEXTS reported by the read are those of the file *)
+Theorem C02_typedef_layout_composition : forall d tws bns its st',
+  doc_ok d = true -> map fst tws = d_tables d -> tws_ok (d_enums d) tws ->
+  Forall2 (fun tw bn => td_reads (d_enums d) (fst tw) (fst bn) (snd bn)) tws bns ->
+  Forall item_good its -> its <> [] ->
+  map item_td_text (filter (item_is_td KW_STRUCT) its) = map btext bns ->
+  map item_td_text (filter (item_is_td KW_ENUM) its) = map render_enum (d_enums d) ->
+  process_lines (sy_of (d_enums d) tws) (st_init (sy_of (d_enums d) tws)) (map item_line its ++ [[]]) = Some st' ->
+  loop_result d st' ->
+  exists p, sem d = Some p /\ parse (items_text its) = Some (with_structs p (map btext bns)) /\
+            parse_binary (items_text its) = Some (with_structs p (map btext bns)).
+Proof. exact parse_items_td. Qed.
+Print Assumptions C02_typedef_layout_composition.
+
+(* FILE LEVEL, round 3 (supersedes C02_layout_independence_partial): the file is ANY sequence l of its core items --
+   keyword pairs, data rows, struct typedefs in any layout td_reads accepts, enum typedefs -- that keeps the pairs in
+   order, every table's rows in order (trs_ok), the struct typedefs in table order and the enum typedefs in order:
+   typedefs and pairs may stand anywhere, also after data rows.  On top of it every decoration of idec: any data row in any
+   admissible token layout, indentation, trailing blanks and a trailing comment on every pair / row line, comment and
+   blank lines inserted anywhere.  Then parse and parse_binary of the text = sem d, reporting the typedef texts of the file *)
+Theorem C02_layout_independence_partial2 : forall d tws l Ds,
+  doc_ok d = true -> map fst tws = d_tables d -> tws_ok (d_enums d) tws ->
+  skel_ok d tws l -> idec (sy_of (d_enums d) tws) Ds (map sk_item l) -> Ds <> [] ->
+  exists p, sem d = Some p /\ parse (items_text Ds) = Some (with_structs p (map btext (sk_structs l))) /\
+            parse_binary (items_text Ds) = Some (with_structs p (map btext (sk_structs l))).
+Proof. exact layout_file_skeleton. Qed.
+Print Assumptions C02_layout_independence_partial2.
+
+(* ---- non-vacuity (C02/Proofs.v, the ex2 definitions): the data row BEFORE the typedef of its table, the pair after the row, the typedef
+   with a comment line, a trailing comment, blank runs, s<4> and a lower-case name ---- *)
+Example C02_example2_typedef : td_reads (d_enums ex_doc) ex_table ex2_body ex2_name.
+Proof. exact example2_typedef. Qed.
+Example C02_example2_skeleton : skel_ok ex_doc ex_tws ex2_skel.
+Proof. exact example2_skeleton. Qed.
+Example C02_example2_layout : idec (sy_of (d_enums ex_doc) ex_tws) ex2_items (map sk_item ex2_skel).
+Proof. exact example2_layout. Qed.
+Example C02_example2_reads_as_the_document :
+  match sem ex_doc with
+  | Some p => parse (items_text ex2_items) = Some (with_structs p [td_text KW_STRUCT ex2_body ex2_name])
+  | None => False
+  end.
+Proof. exact example2_reads_as_the_document. Qed.
